@@ -48,6 +48,13 @@ import (
 // registration block. Everything else gets another signature.
 const (
 	sigD7 = "C16/registration-and-matching-log-in-one-sync-range"
+	// the same root cause seen through a trigger that is registered again: the log is
+	// judged by the registration that was stored when its range was fetched
+	sigD7re = "C16/re-registration-and-matching-log-in-one-sync-range"
+	// a second recorded defect: a registration row is replaced in place by a later
+	// registration of the same trigger; when that later block is abandoned the
+	// rollback deletes the row, and the canonical registration below is not fetched again
+	sigLost = "C16/registration-lost-when-its-re-registration-is-reorged-out"
 )
 
 type c16Item struct {
@@ -233,7 +240,10 @@ func newC16World(spec c16Spec, maxRange uint64) *c16World {
 
 func (w *c16World) close() { w.chain.Close() }
 
-type c16Range struct{ lo, hi uint64 }
+type c16Range struct {
+	lo, hi uint64
+	side   string // branch of the head the Sync call was given
+}
 
 // c16Hist is the part of the run history the classification needs.
 type c16Hist struct {
@@ -274,7 +284,7 @@ func (w *c16World) sync(side string, height int, hist *c16Hist) syncx.StepResult
 			if prev.Present {
 				lo = uint64(prev.Number + 1)
 			}
-			hist.ranges = append(hist.ranges, c16Range{lo, uint64(st.Number)})
+			hist.ranges = append(hist.ranges, c16Range{lo, uint64(st.Number), side})
 		}
 		prev = st
 	})
@@ -305,8 +315,16 @@ func (w *c16World) judge(hist c16Hist) (*finding, string) {
 		qual []c16Log // qualifying logs
 	}
 	refs := map[string]*ref{}
+	// identities registered more than once on the canonical chain (a later
+	// registration replaces block and expiry of the earlier one) are judged apart
+	regsBy := map[string][]*c16Trig{}
 	for _, t := range w.trigs {
-		if !onCanon(t.reg) {
+		if onCanon(t.reg) {
+			regsBy[t.ident] = append(regsBy[t.ident], t)
+		}
+	}
+	for _, t := range w.trigs {
+		if !onCanon(t.reg) || len(regsBy[t.ident]) > 1 {
 			continue
 		}
 		r := &ref{t: t}
@@ -340,6 +358,72 @@ func (w *c16World) judge(hist c16Hist) (*finding, string) {
 		lines = append(lines, "  "+line)
 	}
 	nFired, nD7 := 0, 0
+	nRe, nLost := 0, 0
+	for ident, regs := range regsBy {
+		if len(regs) < 2 {
+			continue
+		}
+		sort.SliceStable(regs, func(i, j int) bool {
+			if regs[i].r != regs[j].r {
+				return regs[i].r < regs[j].r
+			}
+			return regs[i].logIdx < regs[j].logIdx
+		})
+		// the registration in force for a log in block m: the last one in a block
+		// before `before` (ideal: before m; as executed: before the first block of the
+		// range in which block m was processed, because every processor fetches
+		// before any stores - the root cause of the known finding)
+		inForce := func(before uint64) *c16Trig {
+			var cur *c16Trig
+			for _, t := range regs {
+				if t.r < before {
+					cur = t
+				}
+			}
+			return cur
+		}
+		ideal, batched := false, false
+		var why []string
+		for _, l := range w.logs {
+			if !onCanon(l.blk) || !regs[0].matches(l.kind) {
+				continue
+			}
+			m := w.chain.Block(l.blk).Number
+			if t := inForce(m); t != nil && m <= t.e {
+				ideal = true
+				why = append(why, fmt.Sprintf("log in block %d lies within (%d, %d] of the registration in force", m, t.r, t.e))
+			} else if t != nil {
+				why = append(why, fmt.Sprintf("log in block %d lies after the expiry %d of the registration in force (block %d)", m, t.e, t.r))
+			}
+			if rg, ok := hist.lastRange(m); ok {
+				if t := inForce(rg.lo); t != nil && m <= t.e {
+					batched = true
+				}
+				why = append(why, fmt.Sprintf("block %d was processed in range [%d,%d]", m, rg.lo, rg.hi))
+			}
+		}
+		real := len(fired[ident]) > 0
+		if len(fired[ident]) > 1 {
+			add("C16/fired-twice", fmt.Sprintf("%d rows for trigger %s", len(fired[ident]), ident))
+		}
+		var desc []string
+		for _, t := range regs {
+			desc = append(desc, fmt.Sprintf("block %d expiry %d", t.r, t.e))
+		}
+		line := fmt.Sprintf("trigger %s registered %d times (%s): fired=%v, the statement demands fired=%v (%s)", ident[:20], len(regs), strings.Join(desc, "; "), real, ideal, strings.Join(why, "; "))
+		switch {
+		case real == ideal:
+		case real == batched:
+			nRe++
+			add(sigD7re, line+" - a registration and the log were fetched in the same range, before that registration was stored")
+		default:
+			add("C16/re-registered-trigger-fired-set-differs", line)
+		}
+		if real {
+			nFired++
+		}
+		delete(fired, ident)
+	}
 	for ident, rs := range fired {
 		nFired++
 		if len(rs) > 1 {
@@ -398,7 +482,24 @@ func (w *c16World) judge(hist c16Hist) (*finding, string) {
 			where = append(where, fmt.Sprintf("log in block %d processed in range [%d,%d]", m, rg.lo, rg.hi))
 		}
 		line := fmt.Sprintf("trigger %d (registered in block %d, expiry %d) has not fired although a matching log lies in (%d, %d]: %s", r.t.n, r.t.r, r.t.e, r.t.r, r.t.e, strings.Join(where, "; "))
-		if d7 {
+		// was the (only canonical) registration replaced by a registration of the same
+		// trigger in a block that was synced and abandoned afterwards?
+		lost := ""
+		for _, t2 := range w.trigs {
+			if t2.ident != ident || onCanon(t2.reg) || t2.r <= r.t.r {
+				continue
+			}
+			side := w.chain.Block(t2.reg).Tag
+			for _, rg := range hist.ranges {
+				if rg.side == side && rg.lo <= t2.r && t2.r <= rg.hi {
+					lost = fmt.Sprintf("the same trigger was registered again in block %d of the abandoned branch, which had been synced (range [%d,%d]) before the reorg", t2.r, rg.lo, rg.hi)
+				}
+			}
+		}
+		if lost != "" && !d7 {
+			nLost++
+			add(sigLost, line+" - "+lost+": the rollback deleted the replaced row and with it the canonical registration")
+		} else if d7 {
 			nD7++
 			add(sigD7, line+" - registration and log were fetched in the same range, before the registration was stored")
 		} else {
@@ -409,6 +510,12 @@ func (w *c16World) judge(hist c16Hist) (*finding, string) {
 	if nD7 > 0 {
 		class += fmt.Sprintf("/missed-in-one-range=%d", nD7)
 	}
+	if nRe > 0 {
+		class += fmt.Sprintf("/re-registration-in-the-log's-range=%d", nRe)
+	}
+	if nLost > 0 {
+		class += fmt.Sprintf("/registration-lost-with-abandoned-re-registration=%d", nLost)
+	}
 	if len(sigs) == 0 {
 		return nil, class
 	}
@@ -418,11 +525,13 @@ func (w *c16World) judge(hist c16Hist) (*finding, string) {
 		// the known class must not hide anything else
 		var other []string
 		for _, s := range sigs {
-			if s != sigD7 {
+			if s != sigD7 && s != sigD7re && s != sigLost {
 				other = append(other, strings.TrimPrefix(s, "C16/"))
 			}
 		}
-		sig = "C16/" + strings.Join(other, "+")
+		if len(other) > 0 {
+			sig = "C16/" + strings.Join(other, "+")
+		}
 	}
 	return &finding{sig: sig, msg: fmt.Sprintf("position (%d, %x..) on the canonical chain (head %d), fired_triggers deviates from the reference:\n%s", pos, st.Hash[:4], w.chain.Head().Number, strings.Join(lines, "\n"))}, class
 }
@@ -515,7 +624,7 @@ func c16Chains(thorough bool) []c16Spec {
 				if it.Data {
 					s += "d"
 				}
-				if it.Eon != 0 {
+				if it.Eon != 0 || it.IdentOf != 0 {
 					s += fmt.Sprintf("(eon %d, identity of %d)", it.Eon, it.IdentOf)
 				}
 				p = append(p, s)
@@ -599,6 +708,24 @@ func c16Chains(thorough bool) []c16Spec {
 			}
 		}
 	}
+	// the same trigger (eon, identity) registered again later: the later registration
+	// replaces block and expiry of the earlier one (a ttl of 0 cuts it short)
+	for r1 := 1; r1 < L; r1++ {
+		for r2 := r1 + 1; r2 <= L; r2++ {
+			for _, t1 := range ttl2 {
+				for _, t2 := range []int{0, 1, L} {
+					for b := r1 + 1; b <= L; b++ {
+						if b == r2 {
+							continue // which registration is in force inside the re-registration block is not defined by the statement
+						}
+						c := reg(2, r2, t2, false)
+						c.IdentOf = 1
+						emit(reg(1, r1, t1, false), c, lg(b, "match", false))
+					}
+				}
+			}
+		}
+	}
 	return out
 }
 
@@ -661,6 +788,16 @@ func c16ForkChains(thorough bool) []c16Spec {
 								{Type: "log", Side: "fork", Height: lp.h, Kind: "low-data"},
 							}
 							out = append(out, c16Spec{Name: fmt.Sprintf("L%d/F%d:reg1@trunk%d(data=%v),reg2@fork%d+%d,low-data@fork%d", L, F, rp.h, dataOnTrunk, rp.h, ttl, lp.h), L: L, ForkAt: F, ReorgDepth: 3, Items: it5})
+						}
+					}
+					// the trigger registered below the fork point and again in a trunk block that is
+					// abandoned later (any ttl for the second registration)
+					if rp.side == "trunk" && rp.h <= F && lp.side == "fork" && ttl != 2 {
+						for h2 := F + 1; h2 <= L && h2 <= F+2; h2++ {
+							for _, ttl2 := range []int{0, L} {
+								it6 := append(append([]c16Item{}, items...), c16Item{Type: "reg", Side: "trunk", Height: h2, Trigger: 2, IdentOf: 1, TTL: ttl2})
+								out = append(out, c16Spec{Name: fmt.Sprintf("L%d/F%d:reg@trunk%d+%d,again@trunk%d+%d,match@fork%d", L, F, rp.h, ttl, h2, ttl2, lp.h), L: L, ForkAt: F, ReorgDepth: 3, Items: it6})
+							}
 						}
 					}
 					// the registration on both sides (same trigger re-registered on the other branch)
@@ -743,7 +880,7 @@ func (r *c16Runner) after(hist c16Hist, steps []c16Step, final bool) bool {
 	}
 	if f != nil {
 		r.report(f, steps)
-		if f.sig != sigD7 {
+		if f.sig != sigD7 && f.sig != sigD7re && f.sig != sigLost {
 			return false
 		}
 	}
